@@ -22,7 +22,7 @@ from .engine import FuncNode, Module, Repo, _attach_parents, dotted_name, enclos
 
 PURE_BUILTINS = {"type", "len", "str", "int", "float", "bool", "isinstance", "issubclass", "getattr", "hasattr", "repr", "min", "max", "abs", "id", "callable", "bytes"}
 FRESH_BUILTINS = {"list", "dict", "set", "tuple", "frozenset", "sorted"}
-PURE_METHODS = {"encode", "decode", "format", "get", "keys", "values", "items", "lower", "upper", "strip", "startswith", "endswith", "join", "hexdigest", "as_uri", "split", "as_posix"}
+PURE_METHODS = {"encode", "decode", "format", "get", "keys", "values", "items", "lower", "upper", "strip", "lstrip", "rstrip", "replace", "startswith", "endswith", "join", "hexdigest", "as_uri", "split", "as_posix"}
 PURE_MODULE_CALLS = {"hashlib.sha256", "hashlib.sha1", "hashlib.md5", "json.dumps", "os.path.join", "str.join"}
 
 
@@ -133,7 +133,37 @@ def _always_returns(stmts: Sequence[ast.stmt]) -> bool:
         return _always_returns(last.body) and _always_returns(last.orelse)
     if isinstance(last, ast.With):
         return _always_returns(last.body)
+    if isinstance(last, ast.Try) and not last.orelse and not _contains_return(last.finalbody):
+        return _always_returns(last.body) and bool(last.handlers) and all(_always_returns(h.body) for h in last.handlers)
     return False
+
+
+def _own_breaks(loop: ast.AST) -> bool:
+    """True when *loop* contains a break/continue-else interaction of its own (a `break` that belongs to it)."""
+    todo = list(loop.body)
+    while todo:
+        n = todo.pop()
+        if isinstance(n, ast.Break):
+            return True
+        if isinstance(n, (ast.For, ast.While, ast.AsyncFor) + FuncNode + (ast.ClassDef, ast.Lambda)):
+            continue
+        todo.extend(ast.iter_child_nodes(n))
+    return False
+
+
+def _returns_only_in_own_body(loop: ast.AST) -> bool:
+    """Every Return inside *loop* sits in the loop's own body (not inside a nested loop / try-finally / with)."""
+    def ok(stmts) -> bool:
+        for st in stmts:
+            if isinstance(st, ast.Return):
+                continue
+            if isinstance(st, ast.If):
+                if not (ok(st.body) and ok(st.orelse)):
+                    return False
+            elif _contains_return(st):
+                return False
+        return True
+    return ok(loop.body)
 
 
 def _tailify(stmts: List[ast.stmt], budget: List[int]) -> Optional[List[ast.stmt]]:
@@ -171,6 +201,32 @@ def _tailify(stmts: List[ast.stmt], budget: List[int]) -> Optional[List[ast.stmt
             ast.copy_location(new, st)
             out.append(new)
             return out
+        if isinstance(st, ast.Try) and _contains_return(st):
+            # try/except whose parts return, in tail position: the returns stay inside the try statement
+            rest = stmts[i + 1:]
+            if st.orelse or _contains_return(st.finalbody):
+                return None
+            body = _tailify(st.body, budget)
+            hbodies = [_tailify(h.body, budget) for h in st.handlers]
+            if body is None or any(h is None for h in hbodies):
+                return None
+            if rest and not (_always_returns(body) and hbodies and all(_always_returns(h) for h in hbodies)):
+                return None
+            new = ast.Try(body=body, handlers=[ast.copy_location(ast.ExceptHandler(type=h.type, name=h.name, body=hb or [ast.Pass()]), h) for h, hb in zip(st.handlers, hbodies)], orelse=[], finalbody=st.finalbody)
+            ast.copy_location(new, st)
+            out.append(new)
+            return out
+        if isinstance(st, ast.For) and _contains_return(st) and not st.orelse and not _own_breaks(st) and _returns_only_in_own_body(st):
+            # search loop: ``for x in xs: if p(x): return x`` + rest  ->  the returns become (result; break) and the
+            # rest moves into the loop's else clause (_finish does the rewriting; marked here)
+            rest = _tailify(stmts[i + 1:], budget)
+            if rest is None:
+                return None
+            new = ast.For(target=st.target, iter=st.iter, body=st.body, orelse=rest, type_comment=None)
+            ast.copy_location(new, st)
+            new._search_loop = True  # type: ignore[attr-defined]
+            out.append(new)
+            return out
         if _contains_return(st):
             return None
         out.append(st)
@@ -190,6 +246,31 @@ def _finish(stmts: List[ast.stmt], make, fall) -> List[ast.stmt]:
     if stmts and isinstance(stmts[-1], ast.With) and _contains_return(stmts[-1]):
         st = stmts[-1]
         st.body = _finish(st.body, make, fall) or [ast.copy_location(ast.Pass(), st)]
+        return stmts
+    if stmts and isinstance(stmts[-1], ast.Try) and _contains_return(stmts[-1]):
+        st = stmts[-1]
+        st.body = _finish(st.body, make, fall) or [ast.copy_location(ast.Pass(), st)]
+        for h in st.handlers:
+            h.body = _finish(h.body, make, fall) or [ast.copy_location(ast.Pass(), h)]
+        return stmts
+    if stmts and isinstance(stmts[-1], ast.For) and getattr(stmts[-1], "_search_loop", False):
+        st = stmts[-1]
+
+        def in_loop(body: List[ast.stmt]) -> List[ast.stmt]:
+            out: List[ast.stmt] = []
+            for x in body:
+                if isinstance(x, ast.Return):
+                    out.extend(make(x.value, x))
+                    out.append(ast.copy_location(ast.Break(), x))
+                    return out
+                if isinstance(x, ast.If):
+                    x.body = in_loop(x.body) or [ast.copy_location(ast.Pass(), x)]
+                    x.orelse = in_loop(x.orelse)
+                out.append(x)
+            return out
+
+        st.body = in_loop(st.body) or [ast.copy_location(ast.Pass(), st)]
+        st.orelse = _finish(st.orelse, make, fall)
         return stmts
     if stmts and isinstance(stmts[-1], ast.Raise):
         return stmts
@@ -292,9 +373,12 @@ class _Inliner:
         if body and isinstance(body[0], ast.Expr) and isinstance(body[0].value, ast.Constant) and isinstance(body[0].value.value, str):
             body = body[1:]
         body = clone(body)
-        tail = _tailify(body, [40])
-        if tail is None:
-            return None
+        if isinstance(context, ast.Return):
+            tail = body  # `return h(..)`: the helper's returns are the caller's returns wherever they sit
+        else:
+            tail = _tailify(body, [40])
+            if tail is None:
+                return None
         stored = set()
         for s in tail:
             stored |= _stored_names(s)
@@ -335,9 +419,12 @@ class _Inliner:
             return node
 
         if isinstance(context, ast.Return):
-            make = lambda v, r: [at(ast.Return(value=v), r)]
-            fall = lambda: [at(ast.Return(value=None), context)]
-        elif isinstance(context, ast.Expr):
+            out = prologue + tail
+            if not _always_returns(tail):
+                out = out + [at(ast.Return(value=None), context)]
+            self.inlined.append(h.name)
+            return out
+        if isinstance(context, ast.Expr):
             make = lambda v, r: ([] if v is None or isinstance(v, ast.Constant) or isinstance(v, ast.Name) else [at(ast.Expr(value=v), r)])
             fall = lambda: []
         elif isinstance(context, ast.Assign):
